@@ -159,6 +159,7 @@ type world struct {
 	secInfos  []byte
 	mu        sync.Mutex
 	csCache   map[uint8][]byte
+	aNL       *refpki.Cert // attacker's self-signed CA certificate carrying the genuine CSCA's DN
 }
 
 var (
@@ -208,6 +209,7 @@ func getWorld(p profile) *world {
 	skiG := gOK.SKI
 	fSame := ca(nameNL, w.keys[roleF], skiG, refpki.BCCA, kcs, date(2015), date(2035))
 	aFR := ca(nameFR, w.keys[roleA], nil, refpki.BCCA, kcs, date(2015), date(2035))
+	w.aNL = ca(nameNL, w.keys[roleA], nil, refpki.BCCA, kcs, date(2015), date(2035)) // attacker's self-signed CA under the genuine CSCA's DN
 	uSE := ca(nameSE, kU, nil, refpki.BCCA, kcs, date(2015), date(2035))
 	gNoCA := ca(nameNL, G, nil, refpki.BCNotCA, kcs, date(2015), date(2035))
 	gNoKCS := ca(nameNL, G, nil, refpki.BCCA, refpki.KUCRLSign, date(2015), date(2035))
@@ -281,6 +283,7 @@ type state struct {
 	SigT   uint8
 	Cert   uint8
 	Store  uint8
+	Extra  uint8 // 0: only the signer certificate is embedded; 1: the attacker's self-signed CA certificate (genuine CSCA DN, attacker key) is embedded as well - embedded certificates are never trust anchors, so the ground truth does not depend on it
 	CS     uint8 // CardSecurity: 0 absent, 1 genuine, 2 genuine with tampered eContent, 3 made and signed by the attacker (certificate cAtkAkiG_NL)
 }
 
@@ -295,8 +298,8 @@ func (s state) String() string {
 	if s.SigKey == 1 {
 		sig = fmt.Sprintf("attackerDS-over(md=H(list%v),time=T%d)", s.SigM, s.SigT*2)
 	}
-	return fmt.Sprintf("profile=%s DG1/15/13=%v list=%v md=H(list%v) signingTime=T%d sig=%s cert=%s store=%s cardsec=%d",
-		allProfiles[s.Prof].Name, s.DG, s.L, s.M, s.T*2, sig, certNames[s.Cert], storeNames[s.Store], s.CS)
+	return fmt.Sprintf("profile=%s DG1/15/13=%v list=%v md=H(list%v) signingTime=T%d sig=%s cert=%s embeddedAttackerCA=%d store=%s cardsec=%d",
+		allProfiles[s.Prof].Name, s.DG, s.L, s.M, s.T*2, sig, certNames[s.Cert], s.Extra, storeNames[s.Store], s.CS)
 }
 
 type action struct {
@@ -334,6 +337,7 @@ func init() {
 		v := v
 		actions = append(actions, action{fmt.Sprintf("set-cardsec:=%d", v), func(s state) state { s.CS = v; return s }})
 	}
+	actions = append(actions, action{"toggle-embedded-attacker-ca", func(s state) state { s.Extra ^= 1; return s }})
 }
 
 // bfs returns the states in discovery order and the number of transitions applied.
@@ -511,6 +515,9 @@ func (w *world) sodData(s state) *refpki.SignedData {
 	t := tOf(s.T)
 	sd := &refpki.SignedData{EContentType: refpki.OIDLDSSecurityObject, EContent: w.lds(s.L), DigestAlg: w.p.Hash,
 		Certs: []*refpki.Cert{w.certs[s.Cert]}, MessageDigest: w.p.Hash.Sum(w.lds(s.M)), SigningTime: &t}
+	if s.Extra == 1 {
+		sd.Certs = append(sd.Certs, w.aNL)
+	}
 	// the signature is computed over the attributes it was made for, then placed next to the current attributes
 	signed := *sd
 	if s.SigKey == 0 {
@@ -1180,6 +1187,7 @@ type mlCase struct {
 	Sig     int    `json:"sig"`     // 0 genuine signature (master list signer key), 1 attacker key over current attributes
 	Cert    int    `json:"cert"`    // 0 genuine MLS, 1 attacker MLS issued by attacker CSCA with AKI = genuine SKI, 2 same with AKI = attacker SKI, 3 self-signed
 	Root    int    `json:"root"`    // 0 genuine CSCA, 1 other key with the genuine SKI, 2 attacker's CSCA
+	Embed   int    `json:"embed"`   // 0 only the signer certificate embedded, 1 the attacker's CSCA certificate embedded as well (embedded certificates are never trust anchors)
 }
 
 func mlTruth(m mlCase) []string {
@@ -1230,7 +1238,11 @@ func mlBuild(m mlCase) (ml []byte, root []byte, want [][]byte, err error) {
 	}
 	tt := t0
 	content := refpki.MasterListContent(lists[m.Content])
-	sd := &refpki.SignedData{EContentType: refpki.OIDCscaMasterList, EContent: content, DigestAlg: p.Hash, Certs: []*refpki.Cert{certs[m.Cert]},
+	embedded := []*refpki.Cert{certs[m.Cert]}
+	if m.Embed == 1 {
+		embedded = append(embedded, aFR)
+	}
+	sd := &refpki.SignedData{EContentType: refpki.OIDCscaMasterList, EContent: content, DigestAlg: p.Hash, Certs: embedded,
 		MessageDigest: p.Hash.Sum(refpki.MasterListContent(lists[m.MD])), SigningTime: &tt}
 	signed := *sd
 	if m.Sig == 0 {
@@ -1290,12 +1302,14 @@ func runMasterList(c *vc.Ctx) {
 			for md := 0; md < 2; md++ {
 				for sig := 0; sig < 2; sig++ {
 					for cert := 0; cert < 4; cert++ {
-						for root := 0; root < 3; root++ {
+						for root := 0; root < 6; root++ {
+							embed := root / 3
+							root := root % 3
 							n++
 							if !c.Mine() {
 								continue
 							}
-							m := mlCase{"ml", pn, content, md, sig, cert, root}
+							m := mlCase{"ml", pn, content, md, sig, cert, root, embed}
 							bad := mlTruth(m)
 							acc, poolOK, errs, pnc := mlRun(m)
 							c.AddTraces(1)
